@@ -513,6 +513,96 @@ Proof.
     destruct (IH s1 s' I1 R k) as (A & B & D). lia.
 Qed.
 
+(** * DATAGRAM frames: both encodings are judged by their total size; the sending side *)
+
+Lemma dgram_enc_client e s hl p :
+  client_step e s (EvDgramEnc hl p) =
+    (s, if l_dgram (e_enf e) =? 0 then Some FrameEncodingError
+        else if l_dgram (e_enf e) <? dgram_frame_size hl p then Some ProtocolViolation else None).
+Proof.
+  unfold EvDgramEnc. cbn [client_step]. destruct (l_dgram (e_enf e) =? 0); [reflexivity|].
+  rewrite Z.gtb_ltb. destruct (l_dgram (e_enf e) <? dgram_frame_size hl p); reflexivity.
+Qed.
+
+Theorem dgram_accept_iff e s hl p :
+  snd (client_step e s (EvDgramEnc hl p)) = None <->
+  l_dgram (e_enf e) <> 0 /\ dgram_frame_size hl p <= l_dgram (e_enf e).
+Proof.
+  rewrite dgram_enc_client. cbn [snd].
+  destruct (Z.eqb_spec (l_dgram (e_enf e)) 0) as [E|E].
+  - split; [discriminate | intros [H _]; contradiction].
+  - destruct (Z.ltb_spec (l_dgram (e_enf e)) (dgram_frame_size hl p)) as [L|L]; split; intros Q; try discriminate; auto.
+    destruct Q. lia.
+Qed.
+
+Lemma dgram_enc_peer_ok e s hl p :
+  peer_ok e s (EvDgramEnc hl p) = (1 <=? dgram_frame_size hl p) && (dgram_frame_size hl p <=? dgram_cap (e_adv e)).
+Proof. reflexivity. Qed.
+
+Lemma vlen_le_8 v : vlen v <= 8.
+Proof. unfold vlen. repeat match goal with |- context [if ?c then _ else _] => destruct c end; lia. Qed.
+
+Lemma vlen_ge_1 v : 0 <= v <= maxVarInt8 -> 1 <= vlen v.
+Proof. intros H. destruct (vlen_cases v H) as [X|[X|[X|X]]]; lia. Qed.
+
+Lemma vlen_mono a b : 0 <= a <= b -> b <= maxVarInt8 -> vlen a <= vlen b.
+Proof.
+  unfold vlen, maxVarInt1, maxVarInt2, maxVarInt4, maxVarInt8. intros H Hb.
+  destruct (Z.leb_spec a 63), (Z.leb_spec b 63), (Z.leb_spec a 16383), (Z.leb_spec b 16383),
+    (Z.leb_spec a 1073741823), (Z.leb_spec b 1073741823), (Z.leb_spec a 4611686018427387903),
+    (Z.leb_spec b 4611686018427387903); lia.
+Qed.
+
+(* the loop ends on a length that fits (or 0) ... *)
+Lemma shrink_loop_fits space : forall fuel d, 0 <= d <= space -> 7 <= space - d + Z.of_nat fuel ->
+  let r := shrink_loop fuel space d in 0 <= r <= d /\ (r = 0 \/ vlen r - 1 + r <= space).
+Proof.
+  induction fuel as [|f IH]; intros d Hd Hf; cbn [shrink_loop].
+  - split; [lia|]. right. pose proof (vlen_le_8 d). lia.
+  - destruct (Z.ltb_spec 0 d); cbn [andb].
+    + destruct (Z.ltb_spec space (vlen d - 1 + d)).
+      * destruct (IH (d - 1)) as (A & B); [lia | lia |]. split; [lia | exact B].
+      * split; [lia | right; lia].
+    + split; [lia | left; lia].
+Qed.
+
+(* ... and on the largest such length *)
+Lemma shrink_loop_max space p : 0 <= p -> vlen p - 1 + p <= space -> space <= maxVarInt8 ->
+  forall fuel d, p <= d <= space -> p <= shrink_loop fuel space d.
+Proof.
+  intros Hp Hfit Hs. induction fuel as [|f IH]; intros d Hd; cbn [shrink_loop]; [lia|].
+  destruct (Z.ltb_spec 0 d); cbn [andb]; [|lia].
+  destruct (Z.ltb_spec space (vlen d - 1 + d)); [|lia].
+  apply IH. assert (p <> d) by (intros ->; lia). lia.
+Qed.
+
+(* SendDatagram accepts a payload iff the frame it makes (type 0x31, with length field) is within the
+   peer's max_datagram_frame_size (and the payload within the MTU estimate) *)
+Theorem send_datagram_iff mdfs mtu p : 0 <= p -> 2 <= mdfs <= maxVarInt8 ->
+  send_datagram_ok mdfs mtu p = true <-> (dgram_frame_size true p <= mdfs /\ p <= mtu).
+Proof.
+  intros Hp Hm. unfold send_datagram_ok, send_datagram_max, dgram_max_data_len, dgram_frame_size.
+  rewrite (proj2 (Z.ltb_lt 0 mdfs)) by lia. cbn [andb]. rewrite Z.leb_le.
+  rewrite (proj2 (Z.ltb_ge mdfs 2)) by lia.
+  unfold shrink_for_length_field.
+  destruct (shrink_loop_fits (mdfs - 2) 8 (mdfs - 2)) as ((R0 & R1) & R2); [lia | simpl; lia |].
+  split; intros H0.
+  - assert (Hle : p <= shrink_loop 8 (mdfs - 2) (mdfs - 2)) by lia.
+    split; [|lia].
+    destruct R2 as [R2|R2]; [assert (p = 0) by lia; subst; unfold vlen, maxVarInt1; simpl; lia|].
+    pose proof (vlen_mono p (shrink_loop 8 (mdfs - 2) (mdfs - 2))). lia.
+  - destruct H0 as [H1 H2]. apply Z.min_glb; [|exact H2].
+    destruct (Z_le_gt_dec p maxVarInt8) as [Q|Q].
+    + pose proof (vlen_ge_1 p). apply shrink_loop_max; lia.
+    + exfalso. unfold vlen in H1. unfold maxVarInt1, maxVarInt2, maxVarInt4, maxVarInt8 in *.
+      destruct (Z.leb_spec p 63), (Z.leb_spec p 16383), (Z.leb_spec p 1073741823), (Z.leb_spec p 4611686018427387903); lia.
+Qed.
+
+(* the corner the theorem excludes: a peer advertising max_datagram_frame_size = 1 (room for the type
+   byte only) is sent the empty datagram as a 2-byte frame (type 0x31 + length 0) *)
+Lemma send_datagram_mdfs1_corner : send_datagram_ok 1 1200 0 = true /\ dgram_frame_size true 0 = 2.
+Proof. split; reflexivity. Qed.
+
 (** * Every dial derives its own list from the spec's (untouched) list *)
 
 Lemma fill_iscid_fst (scid : list Z) (q : tparam) :
